@@ -278,7 +278,7 @@ func one(run *kit.Run, f *fox.Router, l limits, p string) {
 	routable(run, l, p, rte, key, rep)
 }
 
-var pathVals = []string{"v", "1", "a-b", "zz"}
+var pathVals = []string{"v", "1", "a-b", "zz", "my report", "caf\u00e9", "a|b^"}
 var hostVals = []string{"x", "y1", "q"}
 var catchVals = []string{"c", "c/d", "c/d/e"}
 
@@ -308,7 +308,7 @@ func routable(run *kit.Run, l limits, p string, rte *fox.Route, key string, rep 
 				case t.K == ref.Param && t.Host:
 					vals = append(vals, ref.KV{K: t.Name, V: hostVals[(k+r.IntN(3))%len(hostVals)]})
 				case t.K == ref.Param:
-					vals = append(vals, ref.KV{K: t.Name, V: pathVals[(k+r.IntN(4))%len(pathVals)]})
+					vals = append(vals, ref.KV{K: t.Name, V: pathVals[(k+r.IntN(len(pathVals)))%len(pathVals)]})
 				case t.K == ref.Catch:
 					vals = append(vals, ref.KV{K: t.Name, V: catchVals[(k+r.IntN(3))%len(catchVals)]})
 				}
@@ -333,6 +333,18 @@ func routable(run *kit.Run, l limits, p string, rte *fox.Route, key string, rep 
 			if !pat.HasInfixCatchAll() && !route.SameParams(got.Params, vals) {
 				run.Violate("bad-values|"+key, fmt.Sprintf("accepted pattern %q: request %s was built from %v but %v is reported", p, q, vals, got.Params), rep)
 				return
+			}
+			// the same lookup through a read-only and a write transaction gives the same answer
+			var viaRead, viaWrite route.Obs
+			_ = g.View(func(t *fox.Txn) error { viaRead = route.LookupObs(t, q); return nil })
+			wt := g.Txn(true)
+			viaWrite = route.LookupObs(wt, q)
+			wt.Abort()
+			for name, o := range map[string]route.Obs{"a read-only transaction": viaRead, "a write transaction": viaWrite} {
+				if o.Pattern != got.Pattern || o.Tsr != got.Tsr || !route.SameParams(o.Params, got.Params) {
+					run.Violate("txn-lookup-differs|"+key, fmt.Sprintf("accepted pattern %q: Lookup of %s through %s gives %s, through the router %s", p, q, name, o, got), rep)
+					return
+				}
 			}
 			if len(vals) == 0 {
 				break
